@@ -41,6 +41,8 @@ type genState struct {
 	created   int
 	slashes   int
 	starve    int // index into act.vals of a validator that is never put first in the proposer order (-1 none)
+	curVotes  []*chainkit.SignedVote
+	curCtx    *chainkit.Ctx
 	prevVotes []*chainkit.SignedVote
 	prevCtx   *chainkit.Ctx
 	prevHash  common.Hash
@@ -337,7 +339,7 @@ func (s *sim) genValCreate() {
 		gas = 600000
 	}
 	msg := &staking.TxCreateValidator{
-		Name: cand.name, OperatorAddress: op, Coinbase: cand.key.Coinbase,
+		Name: cand.name, OperatorAddress: op, Coinbase: cand.coinbase,
 		MainPubKey: cand.key.MainPub, BlsPubKey: cand.key.BlsPub, Value: value, Nonce: s.nextNonce(from),
 		CommissionRate: []uint16{0, 1000, 3333, 5000, 10000}[s.c.Intn("commission", 5)],
 		RiskObligation: []uint16{0, 2500, 777, 10000}[s.c.Intn("risk", 4)],
@@ -799,7 +801,7 @@ func (s *sim) scriptAddThenClose() bool {
 // (consensus/ucon/voter.go:590-615) — or a faulty variant, and posts it on the builder's mux
 // like the detector and dev_api do. The next block (whose parent is the voted round) carries it.
 func (s *sim) postEvidence() {
-	votes, ctx := s.b.Engine.LastVotes, s.b.Engine.LastCtx
+	votes, ctx := s.g.curVotes, s.g.curCtx // votes packed into the last MAIN-chain block
 	if len(votes) == 0 || ctx == nil {
 		return
 	}
